@@ -1721,4 +1721,29 @@ theorem fillOutcome_step_shape (S : Schema) (pty : TypeId) (q : Nat) (d1 : Node)
       subst hst
       exact PM.C11.fit_emits_wf_partial S d1 cur cur _ st (Nat.le_refl _) (Nat.zero_le _) hr
 
+/-- **… and it is well-formed** (`StepWF`: both halves of `Slice.wf`, `insert ≤ slice.size`; a
+    replace-around answer has `aroundShape`) under the hypotheses of `C11.fit_emits_wf`: schema guards,
+    a valid intermediate document `d1` whose element nodes have creatable types, and the unplaced slice
+    staying well-formed over the Fitter's run on the filler request (`unplacedWfRun`, decidable; the
+    request slice itself, `⟨retypeFill …, 0, 0⟩`, is closed and therefore well-formed).  So the step
+    `clear_incompatible` records for its fillers can be handed to `Step.apply` without an internal
+    error (C01 `apply_no_internal`) and satisfies `AroundShape` of the C17 theorems. -/
+theorem fillOutcome_step_wf (S : Schema) (hdet : PM.C11.detB S = true) (hfill : S.fillersOKB = true)
+    (hwrap : S.wrapOKB = true) (hlab : S.labelsOKB = true) (pty : TypeId) (q : Nat) (d1 : Node) (cur : Nat)
+    (fs : List Step) (hv : C01.Valid S d1) (hattrs : S.nodeAttrsOK d1 = true)
+    (hrun : unplacedWfRun S d1 cur cur ⟨retypeFill S pty q, 0, 0⟩ = true)
+    (ho : FillOutcome S pty q d1 cur fs) (st : Step) (hst : st ∈ fs) :
+    StepWF st = true ∧
+    (∀ F T G1 G2 sl' ins b, st = .replaceAround F T G1 G2 sl' ins b → aroundShape F T G1 G2 sl' ins = true) := by
+  cases ho with
+  | validEnd _ => simp at hst
+  | asked r _ hr =>
+    cases r with
+    | none => simp at hst
+    | some s0 =>
+      simp only [Option.toList_some, List.mem_singleton] at hst
+      subst hst
+      exact PM.C11.fit_emits_wf S hdet hfill hwrap hlab d1 cur cur _ hv hattrs (by simp [Slice.wf]) (Nat.le_refl _)
+        hrun st hr
+
 end PM.C13
